@@ -8,7 +8,13 @@ a sample of short ones through the kernel ; the ORACLE on the implementation alo
       missing-token syntax faults) gets exactly the diagnostics SPL prescribes, each on the culprit: the culprit's token
       span in splgen.flatten is mapped to bytes by lexing the rendered text with the real lexer,
   (c) every published range lies inside the document and on character boundaries (all documents, malformed included),
-  (d) publishDiagnostics of the built server carries the same messages, at the LSP positions of the byte ranges.
+  (d) publishDiagnostics of the built server carries the same messages, at the LSP positions of the byte ranges,
+  (e) the same along EDIT HISTORIES (tools/c03hist.py): the edits that introduce / repair one violation, with unrelated
+      edits before, between and in the same notification, so that the node carrying a diagnostic is reused by the
+      incremental parser while the declaration that decides about it changes elsewhere: after every notification
+      errors() must be those of a fresh analysis of the current text (whose correctness is (a)/(b)); a difference
+      that Model/UpdateDoc.v predicts is the known finding C03-incparse-diagnostics (root cause: C01-incparse), any other
+      is a violation with the history as replay.
 """
 import collections
 import json
@@ -16,6 +22,7 @@ import os
 import queue
 import random
 
+import c03hist
 import common
 import enc
 import lspclient
@@ -417,6 +424,37 @@ def run(ctx):
                                          for s, e, m in (impl_errs[i] or [])]))
             reported += 1
 
+    # ---------------- (e) along edit histories ----------------
+    from props import c01
+    hists = c03hist.histories(ctx.rng, 4000 if thorough else 700)
+    hlines = [c01.hist_line(t, ns) for _, _, t, ns in hists]
+    himpl = common.run_lines(os.path.join(bindir, "dump_hist"), hlines)
+    hmodel = common.run_lines(judge, hlines) if judge else [""] * len(hlines)
+    hstats, hist_known, hist_bad, hist_mism = collections.Counter(), [], [], []
+    for i, (shape, kind, t, ns) in enumerate(hists):
+        ni, nm = c01.parse_impl(himpl[i]), c01.parse_model(hmodel[i])
+        st, why = c01.judge_history(ni, nm) if judge else ("ok", None)
+        diag_diverges = any(len(p) == 3 and p[0] == 0 and not p[1][4] for p in ni) or any(p[0] == 1 for p in ni)
+        hstats[st] += 1
+        if st == "violation":
+            hist_bad.append((i, why))
+        elif st == "mismatch":
+            hist_mism.append((i, why))
+        elif st == "known" and diag_diverges:
+            hist_known.append(i)
+    for i, why in sorted(hist_bad, key=lambda x: len(hlines[x[0]]))[:2]:
+        shape, kind, t, ns = hists[i]
+        ctx.violation(dict(kind="oracle", property="C03", part="e: diagnostics after an edit history differ from those of the resulting text",
+                           why=why, history_shape=shape, fault=kind, text=t, notifications=ns, command=hlines[i],
+                           encoding="see harness/src/bin/dump_hist.rs; replay with ./check C03 --replay"))
+        reported += 1
+    if hist_known and "C03-incparse-diagnostics" not in known_ids:
+        i = hist_known[0]
+        ctx.violation(dict(kind="oracle", property="C03", part="e: diagnostics after an edit history differ (predicted by the model) "
+                           "but known_findings.jsonl has no entry C03-incparse-diagnostics", text=hists[i][2], notifications=hists[i][3],
+                           command=hlines[i]))
+        reported += 1
+
     # ---------------- (d) over LSP ----------------
     nlsp = 1500 if thorough else 240
     cand = [i for i in range(len(docs)) if impl_errs[i] is not None]
@@ -451,6 +489,12 @@ def run(ctx):
         except RuntimeError as e:
             kfail = []
             ctx.violation(dict(kind="correspondence", property="C03", what="kernel judge failed to run", detail=str(e)[-1500:]), no_input=True)
+    if not reported and hist_mism:
+        i, why = sorted(hist_mism, key=lambda x: len(hlines[x[0]]))[0]
+        ctx.violation(dict(kind="correspondence", property="C03", what="model UpdateDoc.update_doc and AnalyzedSource::update differ on an "
+                           "introduce/repair history: " + str(why), text=hists[i][2], notifications=hists[i][3], command=hlines[i],
+                           impl=himpl[i][:2000], model=hmodel[i][:2000], mismatches=len(hist_mism)), no_input=True)
+        reported += 1
     if not reported:
         if mism or kfail:
             i = sorted(mism + kfail, key=lambda i: len(docs[i].text))[0]
@@ -461,6 +505,11 @@ def run(ctx):
                                impl_errors=impl_errs[i], mismatches=len(mism), kernel_failures=len(kfail)), no_input=True)
         elif judge is None or not proved:
             ctx.violation(dict(kind="proof", property="C03", detail=getattr(ctx, "proof_failure", (jlog or "")[-2000:])), no_input=True)
+    if hist_known and "C03-incparse-diagnostics" in known_ids:
+        i = min(hist_known, key=lambda i: len(hlines[i]))
+        ctx.known("C03-incparse-diagnostics after an incremental update whose tree diverges from the scratch parse exactly as the model of "
+                  "the pinned algorithm predicts (C01-incparse) errors() differs from a fresh analysis: %d of %d introduce/repair histories, "
+                  "e.g. %r + %r" % (len(hist_known), len(hists), hists[i][2][:120], hists[i][3]))
     for e in known:
         hits = known_hits.get(e.get("id"), [])
         if hits:
@@ -493,8 +542,11 @@ def run(ctx):
             i = min(c, key=lambda i: len(docs[i].text))
             samples.append(dict(stream=st, fault=docs[i].meta, text=docs[i].text,
                                 expected=docs[i].expect, observed=[[s, e] + list(m) for s, e, m in (impl_errs[i] or [])]))
+    ctx.cov["edit_histories"] = dict(histories=len(hists), status=dict(hstats), diagnostics_diverge_as_predicted=len(hist_known),
+                                     shapes=dict(collections.Counter(h[0] for h in hists)),
+                                     fault_kinds=dict(collections.Counter(h[1] for h in hists)))
     ctx.cov.update({
-        "evaluations": len(docs),
+        "evaluations": len(docs) + len(hists),
         "distinct_nontrivial": len(nontrivial),
         "rule": "documents: corpus/C03 ; well-typed programs (splgen.well_typed_program minus programs whose locals shadow a type name) x 2 layouts "
                 "(random whitespace, comment lines in gaps, LF/CRLF) ; for a subset every applicable injector of tools/splfaults.py (27 message kinds + "
@@ -552,6 +604,9 @@ def run(ctx):
 
 def replay(ctx, path):
     r = json.load(open(path))
+    if str(r.get("command", "")).startswith("17 "):
+        from props import c01
+        return c01.replay(ctx, path)
     if "text" not in r:
         print(json.dumps(r, indent=1))
         return 1
